@@ -15,6 +15,8 @@ C03 — The parser builds the tree the source spells out.
 -/
 import Anko.Proofs.Pratt
 import Anko.Proofs.PrattDet
+import Anko.Proofs.ScanString
+import Anko.Proofs.Literal
 import Anko.Gen.ParserGen
 import Anko.Gen.Prec
 import Anko.Model.PrecTable
@@ -190,6 +192,64 @@ theorem decimal_literal_overflow_rejected (n : Nat) (h : 2 ^ 63 ≤ n) : parseDe
   have : ¬ n < 2 ^ 63 := by omega
   unfold parseDec
   simp [splitSign_digits, hv, this]
+
+/-! ### literals with a base prefix -/
+
+/-- `0x…` / `0b…`: the spelling of n in base 16 / 2 (any length) denotes n when n < 2^63 and is rejected otherwise -/
+theorem hex_literal_exact (n : Nat) :
+    toNumberInt (48 :: 120 :: baseDigits 16 (by omega) n) = if n < 2 ^ 63 then some (BitVec.ofNat 64 n) else none := by
+  have hne : (baseDigits 16 (by omega) n).isEmpty = false := by
+    cases hl : baseDigits 16 (by omega) n with
+    | nil => exact absurd hl (baseDigits_ne_nil 16 (by omega) n)
+    | cons => rfl
+  rw [toNumberInt_hex _ hne]
+  exact parseIntBase_digits 16 (by omega) goodBase_16 n
+
+theorem binary_literal_exact (n : Nat) :
+    toNumberInt (48 :: 98 :: baseDigits 2 (by omega) n) = if n < 2 ^ 63 then some (BitVec.ofNat 64 n) else none := by
+  have hne : (baseDigits 2 (by omega) n).isEmpty = false := by
+    cases hl : baseDigits 2 (by omega) n with
+    | nil => exact absurd hl (baseDigits_ne_nil 2 (by omega) n)
+    | cons => rfl
+  rw [toNumberInt_bin _ hne]
+  exact parseIntBase_digits 2 (by omega) goodBase_2 n
+
+/-- `-0x…` / `-0b…`: minus n, down to and including -2^63 (whose magnitude does not fit int64) -/
+theorem negative_hex_literal_exact (n : Nat) :
+    toNumberInt (45 :: 48 :: 120 :: baseDigits 16 (by omega) n) = if n ≤ 2 ^ 63 then some (BitVec.ofInt 64 (-(n : Int))) else none := by
+  have hne : (baseDigits 16 (by omega) n).isEmpty = false := by
+    cases hl : baseDigits 16 (by omega) n with
+    | nil => exact absurd hl (baseDigits_ne_nil 16 (by omega) n)
+    | cons => rfl
+  rw [toNumberInt_neghex _ hne]
+  exact parseIntBase_neg_digits 16 (by omega) goodBase_16 n
+
+theorem negative_binary_literal_exact (n : Nat) :
+    toNumberInt (45 :: 48 :: 98 :: baseDigits 2 (by omega) n) = if n ≤ 2 ^ 63 then some (BitVec.ofInt 64 (-(n : Int))) else none := by
+  have hne : (baseDigits 2 (by omega) n).isEmpty = false := by
+    cases hl : baseDigits 2 (by omega) n with
+    | nil => exact absurd hl (baseDigits_ne_nil 2 (by omega) n)
+    | cons => rfl
+  rw [toNumberInt_negbin _ hne]
+  exact parseIntBase_neg_digits 2 (by omega) goodBase_2 n
+
+example : toNumberInt ("-0x8000000000000000".toUTF8.toList) = some (BitVec.ofInt 64 (-(2 ^ 63 : Int))) := by decide +kernel
+example : baseDigits 16 (by omega) 255 = [102, 102] := by simp [baseDigits, digitCharB]
+
+/-! ### string literals -/
+
+/-- A quoted literal denotes the text it spells: for ANY character sequence, scanning an opening
+quote, the sequence with `"` `\` newline tab CR BS FF written as backslash escapes, and a closing
+quote yields the string token with exactly that sequence, positioned at the opening quote, and
+leaves the cursor right behind the closing quote (function-by-function model of lexer.go's
+scanString; the model is compared with the real scanner token by token on every run). -/
+theorem string_literal_denotes_its_text (cs post : List Char) (s : Scan.S) (n : Nat)
+    (h : s.rest = '"' :: (Scan.escape cs ++ '"' :: post)) :
+    ∃ s', Scan.scan (n + 1) s = .ok (⟨.str (String.ofList cs), s.pos⟩, s') ∧ s'.rest = post ∧ s'.src = s.src :=
+  Scan.scan_string_literal cs post s n h
+
+example : Scan.escape ['a', '"', '\\', '\n', 'b'] = ['a', '\\', '"', '\\', '\\', '\\', 'n', 'b'] := by decide
+example : (Scan.lex "x = \"a\\\"b\\n\"").1.map (·.tok) = [.ident "x", .ch '=', .str "a\"b\n", .eof] := by decide +kernel
 
 /-! ### Non-vacuity -/
 example : pr genTbl 0 (.bin "*" (.bin "+" (.atom 1) (.atom 2)) (.atom 3)) =
